@@ -52,8 +52,11 @@ def run_be(PID, prop_file, gen, monitor, nontrivial, rule, n_quick=400, n_thorou
             import time
             c0 = byline[line]
             t_end = time.time() + 90
+            ntail = getattr(c0, 'keep_tail', 0)      # the closing drain phase of a case is never shrunk away
+            tail = c0.cmds[len(c0.cmds) - ntail:] if ntail else []
+            head0 = c0.cmds[:len(c0.cmds) - ntail] if ntail else c0.cmds
             def mk(cmds):
-                c = copy.copy(c0); c.cmds = list(cmds); return c
+                c = copy.copy(c0); c.cmds = list(cmds) + tail; return c
             def run1(l):
                 return ck.run_impl(iexe, [l], per_case_timeout=3)[0]
             def msg_of(c):
@@ -61,7 +64,7 @@ def run_be(PID, prop_file, gen, monitor, nontrivial, rule, n_quick=400, n_thorou
                 if i.startswith(('CRASH', 'HANG', 'NOOUTPUT')): return i.split()[0]
                 m = monitor(c, BC.parse_obs(i))
                 return None if m is None else ''.join(ch for ch in m if not ch.isdigit())[:40]
-            orig = msg_of(c0) if mode == 'monitor' else None
+            orig = msg_of(mk(head0)) if mode == 'monitor' else None
             def fails(cmds):
                 if time.time() > t_end: return False
                 c = mk(cmds)
@@ -69,7 +72,7 @@ def run_be(PID, prop_file, gen, monitor, nontrivial, rule, n_quick=400, n_thorou
                     return msg_of(c) == orig          # the same kind of failure, not just any failure
                 l = c.line(); i = run1(l)
                 return ck.run_model(mexe, [l])[0] != i
-            return mk(ddmin(c0.cmds, fails, max_tests=150)).line()
+            return mk(ddmin(head0, fails, max_tests=150)).line()
 
         km = None
         if known_match:
@@ -117,14 +120,16 @@ def be_driver_phase(ck, tier, gen, monitor, n_quick, n_thorough, name):
     def shrink(line, mode):
         import time
         c0 = byline[line]; t_end = time.time() + 60
+        ntail = getattr(c0, 'keep_tail', 0)      # the closing drain / stop phase of a case is never shrunk away
+        tail = c0.cmds[len(c0.cmds) - ntail:] if ntail else []
         def mk(cmds):
-            c = copy.copy(c0); c.cmds = list(cmds); return c
+            c = copy.copy(c0); c.cmds = list(cmds) + tail; return c
         def msg_of(c):
             i = ck.run_impl(iexe, [c.line()], per_case_timeout=3)[0]
             if i.startswith(('CRASH', 'HANG', 'NOOUTPUT')): return i.split()[0]
             m = monitor(c, BC.parse_obs(i))
             return None if m is None else ''.join(ch for ch in m if not ch.isdigit())[:40]
-        orig = msg_of(c0) if mode == 'monitor' else None
+        orig = msg_of(mk(c0.cmds[:len(c0.cmds) - ntail] if ntail else c0.cmds)) if mode == 'monitor' else None
         def fails(cmds):
             if time.time() > t_end: return False
             c = mk(cmds)
@@ -132,7 +137,7 @@ def be_driver_phase(ck, tier, gen, monitor, n_quick, n_thorough, name):
                 return msg_of(c) == orig          # the same kind of failure, not just any failure (a shrunk case without its drain fails trivially)
             l = c.line(); i = ck.run_impl(iexe, [l], per_case_timeout=3)[0]
             return ck.run_model(mexe, [l])[0] != i
-        return mk(ddmin(c0.cmds, fails, max_tests=120)).line()
+        return mk(ddmin(c0.cmds[:len(c0.cmds) - ntail] if ntail else c0.cmds, fails, max_tests=120)).line()
     dis, mons = correspond(ck, name, lines, ml, il, monitor=mon, shrink=shrink)
     return {'driver_cases': len(lines), 'disagreements': len(dis), 'monitor_failures': len(mons)}
 
